@@ -48,6 +48,16 @@ def pool_specs(dt="f8"):
         "FFT": {"k": "FFT", "n": N, "dt": "c16"}, "Jacobian": {"k": "Jacobian", "shape": [N, N], "dt": dt, "seed": 27},
         "Hessian": {"k": "Hessian", "n": N, "dt": dt, "seed": 28}, "Generic": {"k": "Generic", "shape": [N, N], "dt": dt, "seed": 29},
         "NoDispatch": {"k": "NoDispatch", "arg": D(30)},
+        # annotated members of kinds that have no transpose rule of their own (their .T / .H are lazy wrappers that *infer*
+        # annotations from the wrapped operator: the inference must not write into the wrapped operator's own set)
+        "StiefelGeneric": {"k": "Annot", "name": "Stiefel", "arg": {"k": "Generic", "shape": [5, 3], "dt": dt, "seed": 33, "gen": "orth"}},
+        "StiefelKron": {"k": "Kronecker", "via": "ctor", "args": [{"k": "Annot", "name": "Stiefel", "arg": dict(D(34, 2, 2), gen="orth")},
+                                                                   {"k": "Annot", "name": "Stiefel", "arg": dict(D(35, 2, 2), gen="orth")}]},
+        "UnitaryGeneric": {"k": "Annot", "name": "Unitary", "arg": {"k": "Generic", "shape": [N, N], "dt": dt, "seed": 36, "gen": "orth"}},
+        "SelfAdjointGeneric": {"k": "Annot", "name": "SelfAdjoint", "arg": {"k": "Generic", "shape": [N, N], "dt": dt, "seed": 37, "gen": "herm"}},
+        "PSDKron": {"k": "Kronecker", "via": "ctor", "args": [
+            {"k": "Annot", "name": "PSD", "arg": dict(D(38, 2, 2), gen="herm", eigs=[1.0, 2.0])},
+            {"k": "Annot", "name": "PSD", "arg": dict(D(39, 2, 2), gen="herm", eigs=[1.5, 3.0])}]},
     }
 
 
